@@ -101,6 +101,10 @@ def compile_many(reqs, timeout_ms=5000):
     """reqs: list of (id, [args], source). Returns dict id -> Compiled."""
     lines = ['C\t%s\t%s\t%s' % (i, _hex('\x1f'.join(a)), _hex(s)) for i, a, s in reqs]
     raw = run_requests(lines, timeout_ms)
+    # a time-out on a loaded machine is not a hang: ask again, alone and with six times the budget, before believing it
+    late = [l for l, (i, _, _) in zip(lines, reqs) if raw.get(i, {}).get('status') == 'timeout']
+    if late and len(late) <= 64:
+        raw.update(run_requests(late, timeout_ms * 6))
     return {i: Compiled(raw.get(i, {'id': i, 'status': 'missing'})) for i, _, _ in reqs}
 
 
